@@ -14,6 +14,6 @@ for d in /verif/seeded/*; do
     rules=$(echo "$out" | grep -A1 "^VIOLATION" | grep -o "C[0-9][0-9]-[A-Z0-9-]*\|INTERNAL" | sort -u | tr '\n' ',')
     res="$res $p:rc=$rc[$rules]"
   done
-  git checkout -- .
+  git checkout -- . && git clean -fdq
   echo "$d (own=$own) ->$res"
 done
